@@ -383,13 +383,19 @@ impl Ctx {
         let cur_idx: Vec<AtomicU64> = (0..nthreads).map(|_| AtomicU64::new(0)).collect();
         let cur_t0: Vec<AtomicU64> = (0..nthreads).map(|_| AtomicU64::new(0)).collect();
         let workers_left = AtomicU64::new(nthreads as u64);
+        let (mon_lock, mon_cv) = (Mutex::new(()), std::sync::Condvar::new());
         let case_timeout_ms = self.case_timeout_s * 1000;
         let property = self.property.clone();
         let tier_s = if self.tier == Tier::Quick { "quick" } else { "thorough" };
         std::thread::scope(|s| {
             s.spawn(|| {
-                while workers_left.load(Ordering::Relaxed) > 0 {
-                    std::thread::sleep(Duration::from_millis(250));
+                // woken by the last worker (condvar), otherwise every 250 ms: a sweep of 1 ms must not cost 250 ms
+                let mut guard = mon_lock.lock().unwrap();
+                while workers_left.load(Ordering::SeqCst) > 0 {
+                    guard = mon_cv.wait_timeout(guard, Duration::from_millis(250)).unwrap().0;
+                    if workers_left.load(Ordering::SeqCst) == 0 {
+                        break;
+                    }
                     let now = t_sweep.elapsed().as_millis() as u64;
                     for w in 0..nthreads {
                         let idx1 = cur_idx[w].load(Ordering::Relaxed);
@@ -402,6 +408,7 @@ impl Ctx {
             });
             for w in 0..nthreads {
                 let (cur_idx, cur_t0, workers_left, next, stop, done, merged, f) = (&cur_idx, &cur_t0, &workers_left, &next, &stop, &done, &merged, &f);
+                let (mon_lock, mon_cv) = (&mon_lock, &mon_cv);
                 s.spawn(move || {
                     let mut loc = Loc::new(name);
                     QUIET_PANICS.with(|q| q.set(true));
@@ -440,7 +447,10 @@ impl Ctx {
                         }
                     }
                     merged.lock().unwrap().push(loc);
-                    workers_left.fetch_sub(1, Ordering::Relaxed);
+                    if workers_left.fetch_sub(1, Ordering::SeqCst) == 1 {
+                        let _g = mon_lock.lock().unwrap();
+                        mon_cv.notify_all();
+                    }
                 });
             }
         });
